@@ -4,7 +4,7 @@
 // evaluator, integer overflow, slice lengths, the u16 eviction counter of fix 7ba5924 -- was of this
 // kind) therefore cost one worker for good, and after `pool_size` of them every later call waited
 // for ever for an answer nobody would send: that is what turned those panics into hangs. The worker
-// now contains a panicking task (fix 0000000): the caller of that task sees its result channel
+// now contains a panicking task (fix db87d8f): the caller of that task sees its result channel
 // close (an error), the worker goes on to the next job.
 // Goes into crates/axmos-db/src/multithreading/tests.rs; FAILS before the fix (the last job never runs).
 #[test]
